@@ -1,4 +1,4 @@
-"""Translator group RsConsts (C08, C19): constants of the roller-shutter start/stop spacing logic.
+"""Translator group RsSpacingConsts (C08, C19): constants of the roller-shutter start/stop spacing logic.
 
 Numbers that are macros come from a C probe; literals that exist only inside function bodies
 (the `delay_time > 100` threshold, the 10 ms settle delay, the delays around the GPIO write in
@@ -69,10 +69,10 @@ def _extract():
 
 _vals, _errs = _extract()
 _pre = ('#include <stddef.h>\n#include <supla_esp.h>\n#include <supla_esp_gpio.h>\n#include <supla_esp_rs_fb.h>\n'
-        + ''.join('#error RsConsts: %s\n' % e.replace('\n', ' ') for e in _errs))
+        + ''.join('#error RsSpacingConsts: %s\n' % e.replace('\n', ' ') for e in _errs))
 _names = ['RS_DELAY_THRESHOLD', 'RS_SETTLE_US', 'RS_ORDER_GUARD_STOP', 'RS_ORDER_GUARD_START', 'RELAY_PRE_US', 'RELAY_RETRY_US', 'RELAY_POST_US']
 
-G.GROUPS['RsConsts'] = dict(
+G.GROUPS['RsSpacingConsts'] = dict(
     pre=_pre,
     ints=[('RS_START_DELAY_MS', 'RS_START_DELAY'), ('RS_STOP_DELAY_MS', 'RS_STOP_DELAY'),
           ('RELAY_DOUBLE_TRY_US', 'RELAY_DOUBLE_TRY'),
